@@ -43,6 +43,15 @@ isolated alarms of different members occur at every pair of distances, closer an
 the quiet updates in between on which nothing but the election's waiting counters moves.  Same oracle; whatever the
 ensemble exposes is read defensively (a missing / None / non-integer ``wait_period_counters``, a property that raises) and
 reported as a violation, never as a harness crash.
+
+Round 5, family ``callerobj`` (systems StreamShared / BatchShared, ids ``<S|B>-x-callerobj-...``): TWO ensembles in one process
+whose constructor arguments are the same caller-owned objects -- one selector dict edited in place between the constructions
+(entries replaced / deleted / added) or cleared afterwards, no column_selectors argument for either with one of them
+configured afterwards through the documented ``column_selectors`` attribute (before / after the other is built, or at any
+point of the history), one member dict refilled in place with fresh detectors, one stateless election object (and
+``ensemble.election`` replaced on one of them afterwards).  Every interleaving of the two ensembles' events up to the depth;
+each ensemble is judged by the unchanged single-ensemble oracle against its own solo twins and the columns IT was given /
+configured with, and after every event the ensemble that was not addressed must be exactly where it was.
 """
 import copy
 import functools
@@ -1127,12 +1136,343 @@ def _long_tasks(tier):
     return out
 
 
+# ---------------------------------------------------------------- round 5: family "callerobj"
+# Two ensembles in ONE process whose constructor arguments are the SAME caller-owned objects: one selector dict that the
+# caller edits in place between the two constructions (entries replaced / deleted / added) or clears afterwards, no
+# column_selectors argument at all for either (whatever the library uses as its default) with one of them configured
+# afterwards through the documented ``column_selectors`` attribute (before / after the other one is built, or in the
+# middle of the history), one member dict refilled in place with fresh detectors, one stateless election object (and
+# ``ensemble.election`` replaced afterwards on one of them).  Events are tagged with the ensemble they go to and EVERY
+# interleaving is explored; each ensemble is judged by EnsembleSys.step exactly as if it were the only one (its members'
+# solo twins were deep-copied before it was built, its columns are cut by the harness from the raw data according to what
+# THAT ensemble was given at construction time / configured with afterwards), and after every event every other ensemble
+# must be untouched (members == twins, views, drift_state, counters).
+CALLEROBJ_DEPTH = {"quick": {"stream": 4, "stream_kdq": 3, "batch": 4}, "thorough": {"stream": 5, "stream_kdq": 4, "batch": 5}}
+PROBE_ROW = [[0.0, 1.0, 2.0], [10.0, 11.0, 12.0]]
+
+
+def _identity_selector(X):
+    return X
+
+
+class SharedArgsSys(System):
+    """n ensembles built by ``cfg["script"]`` from caller-owned objects kept in the state (so that snapshots keep their
+    aliasing), each with the complete per-ensemble oracle state of EnsembleSys."""
+
+    def __init__(self, name, base):
+        self.name = name
+        self.base = base
+        self.batch = base.batch
+
+    # -- construction
+    def _new(self, cfg, sub, caller):
+        share = cfg["share"]
+        if share.get("members"):
+            members = caller["mem"]  # the caller's ONE dict, currently filled with this ensemble's fresh detectors
+            if list(members) != list(sub["members"]):
+                raise HarnessError("HARNESS-CRASH: script builds %s from a member dict holding %r" % (sub["id"], list(members)))
+        else:
+            members = {k: FACTORY[k]() for k in sub["members"]}
+        twins = {k: copy.deepcopy(m) for k, m in members.items()}  # before shims, before any ensemble sees them
+        shims = []
+        for k in members:
+            shims += install_shims(members[k], sub["id"], k, self.batch)
+            shims += install_shims(twins[k], sub["id"], k, self.batch)
+        el = caller["el"] if share.get("election") else make_election(sub["election"]["kind"], sub["election"]["params"])
+        cls = BatchEnsemble if self.batch else StreamingEnsemble
+        if sub.get("omit_selectors"):
+            ens = cls(detectors=members, election=el)
+        elif share.get("sel"):
+            ens = cls(detectors=members, election=el, column_selectors=caller["sel"])
+        else:
+            ens = cls(detectors=members, election=el, column_selectors=build_selectors(sub))
+        return {
+            "ens": ens, "twins": twins, "model": M.make_model(sub["election"]["kind"], sub["election"]["params"]),
+            "shims": shims, "updates": 0, "since": 0, "prev": {k: None for k in members}, "expired_before": False,
+            "key": None, "digests": {k: canon(t) for k, t in twins.items()},
+        }
+
+    def _set_selector(self, sub, st, key, cols):
+        f = _identity_selector if cols is None else make_selector(sub["container"], cols)
+        try:
+            st["ens"].column_selectors[key] = f
+        except Exception as e:  # noqa: BLE001
+            raise Violation("attribute-config", "%s: ensemble.column_selectors[%r] = <selector> raised %r" % (self.name, key, e),
+                            expected="accepted (documented attribute)", observed=repr(e))
+        sub["selectors"][key] = None if cols is None else list(cols)
+        (sub.get("styles") or {}).pop(key, None)
+
+    def init(self, cfg):
+        subs = [copy.deepcopy(c) for c in cfg["subs"]]
+        share = cfg["share"]
+        caller = {"sel": {}, "mem": {}, "el": None}
+        if share.get("election"):
+            e0 = subs[0]["election"]
+            if e0["kind"] == "Confirmed" or any(s["election"] != e0 for s in subs):
+                raise HarnessError("HARNESS-CRASH: a shared election object must be stateless and the same for every ensemble")
+            caller["el"] = make_election(e0["kind"], e0["params"])
+        S = [None] * len(subs)
+        for op in cfg["script"]:
+            what = op[0]
+            if what == "seledit":  # the caller edits ITS dict in place so that it describes ensemble op[1]
+                new = build_selectors(subs[op[1]])
+                for k in [k for k in caller["sel"] if k not in new]:
+                    del caller["sel"][k]
+                for k, f in new.items():
+                    caller["sel"][k] = f
+            elif what == "selclear":  # the caller is done with its dict
+                caller["sel"].clear()
+            elif what == "memedit":  # the caller refills ITS member dict with fresh detectors for ensemble op[1]
+                caller["mem"].clear()
+                caller["mem"].update({k: FACTORY[k]() for k in subs[op[1]]["members"]})
+            elif what == "new":
+                S[op[1]] = self._new(cfg, subs[op[1]], caller)
+            elif what == "attr":  # documented attribute, used after construction
+                self._set_selector(subs[op[1]], S[op[1]], op[2], op[3])
+            elif what == "elattr":
+                i, kind, params = op[1], op[2], op[3]
+                S[i]["ens"].election = make_election(kind, params)
+                S[i]["model"] = M.make_model(kind, params)
+                subs[i]["election"] = {"kind": kind, "params": params}
+            else:
+                raise HarnessError("HARNESS-CRASH: unknown script op %r" % (op,))
+        if any(s is None for s in S):
+            raise HarnessError("HARNESS-CRASH: script %r does not build every ensemble" % (cfg["script"],))
+        n = len(S)
+        return {"S": S, "subs": subs, "caller": caller, "n": [0] * n, "term": [False] * n, "refd": [not self.batch] * n,
+                "verdict": [None] * n, "configured": [0] * n}
+
+    # -- events
+    def alphabet(self, cfg, state, pos):
+        out = []
+        for i in range(len(state["S"])):
+            if state["term"][i]:
+                continue
+            if not state["refd"][i]:
+                out.append([i, ["ref", FIRST_REFS[i % len(FIRST_REFS)]]])
+            else:
+                out += [[i, ["u", r]] for r in cfg.get("urows", (0, 1, 2))] + [[i, ["reset"]]]
+                if self.batch:
+                    out.append([i, ["ref", LATER_REF]])
+            for j, key, cols in cfg.get("sel_events", ()):
+                if j == i and state["subs"][i]["selectors"].get(key) != (None if cols is None else list(cols)):
+                    out.append([i, ["sel", key, cols]])
+        return out
+
+    def _probe(self, sub, st):
+        """what the ensemble's selector table really does to a probe -- part of the transposition key only (two states
+        whose tables differ are never merged), never an oracle"""
+        out = []
+        for k in sub["members"]:
+            try:
+                r = st["ens"].column_selectors[k](make_data(PROBE_ROW, sub["container"]))
+                out.append([k, np.asarray(r, dtype=float).ravel().tolist()])
+            except Exception as e:  # noqa: BLE001
+                out.append([k, "?" + type(e).__name__])
+        return out
+
+    def key(self, cfg, state, pos):
+        h = hashlib.blake2b(digest_size=16)
+        for i, st in enumerate(state["S"]):
+            sub = state["subs"][i]
+            h.update(st["key"] or b"never used")
+            h.update(canon([sub["selectors"], sub["election"], self._probe(sub, st), state["term"][i], state["refd"][i],
+                            state["verdict"][i]]))
+        return h.digest()
+
+    def _untouched(self, state, j, ev, ctx):
+        """ensemble j was not addressed by ``ev``: it must be exactly where its own last event left it"""
+        sub, st = state["subs"][j], state["S"][j]
+        what = "an event on another ensemble"
+        self.base._compare_members(sub, st, ev, what)
+        self.base._views(st)
+        got = _read(self.name, "drift_state", lambda: st["ens"].drift_state)
+        if got != state["verdict"][j]:
+            raise Violation(
+                "other-ensemble-verdict",
+                "%s: drift_state of ensemble %d went from %r to %r on %s (%r)" % (self.name, j, state["verdict"][j], got, what, ev),
+                expected=state["verdict"][j], observed=got)
+        self.base._own_counters(st, what)
+        ctx.count("callerobj_other_ensemble_checked_untouched")
+
+    def step(self, cfg, state, ev, pos, ctx):
+        i, e = ev
+        sub, st = state["subs"][i], state["S"][i]
+        others = [j for j in range(len(state["S"])) if j != i and not state["term"][j]]
+        if e[0] == "sel":
+            self._set_selector(sub, st, e[1], e[2])
+            state["configured"][i] += 1
+            for j in [i] + others:
+                self._untouched(state, j, ev, ctx)
+            ctx.count("callerobj_attribute_configured_during_the_history")
+            if state["n"][i]:
+                ctx.count("callerobj_attribute_configured_after_updates")
+            ctx.terminal = all(state["term"])
+            return [i, {"configured": [e[1], e[2]]}]
+        ctx.terminal = False
+        obs = self.base.step(sub, st, e, state["n"][i], ctx)
+        state["n"][i] += 1
+        if ctx.terminal:
+            state["term"][i] = True
+        else:
+            state["verdict"][i] = obs.get("verdict")
+            if e[0] == "ref":
+                state["refd"][i] = True
+        for j in others:
+            self._untouched(state, j, ev, ctx)
+        ctx.terminal = all(state["term"])
+        # anti-vacuity
+        share = cfg["share"]
+        ctx.count("callerobj_events")
+        if all(state["n"]):
+            ctx.count("callerobj_events_with_every_ensemble_used")
+        for tag in cfg["tags"]:
+            ctx.count("callerobj_%s" % tag)
+        if state["configured"][i] and e[0] == "u":
+            ctx.count("callerobj_update_after_attribute_configuration")
+        if e[0] == "u" and not state["term"][i]:
+            mine = obs.get("members") or {}
+            for j in others:
+                if state["n"][j] and state["verdict"][j] != state["verdict"][i]:
+                    ctx.count("callerobj_ensembles_disagree")
+                theirs = state["S"][j]["prev"]
+                if any(k in theirs and theirs[k] != v for k, v in mine.items()):
+                    ctx.count("callerobj_same_key_members_in_different_states")
+        return [i, obs]
+
+
+SYSTEMS["StreamShared"] = SharedArgsSys("StreamShared", SYSTEMS["Stream"])
+SYSTEMS["BatchShared"] = SharedArgsSys("BatchShared", SYSTEMS["Batch"])
+# the generic Pair: family is not derived from these (a pair of pairs = four ensembles; the schedules of mc/pairs.py over
+# the single-ensemble systems stay on)
+PAIR_EXCLUDE = {"StreamShared", "BatchShared"}
+
+BUILD2 = [["new", 0], ["new", 1]]
+SELEDIT2 = [["seledit", 0], ["new", 0], ["seledit", 1], ["new", 1]]
+MEMEDIT2 = [["memedit", 0], ["new", 0], ["memedit", 1], ["new", 1]]
+ALLEDIT2 = [["seledit", 0], ["memedit", 0], ["new", 0], ["seledit", 1], ["memedit", 1], ["new", 1]]
+
+
+def _sub(system, tag, i, members, selectors, election, container, **kw):
+    c = _x(system, "callerobj", "%s#%d" % (tag, i), members, selectors, election, container, **kw)
+    return c
+
+
+def _co(system, tag, container, subs, script, share, tags, sel_events=(), kind=None, urows=(1, 2)):
+    """subs: list of (members, selectors, election[, extra]); urows: the menu entries used for update() -- entries 1 and 2
+    (every column differs between them and from the other columns) unless the configuration asks for all three"""
+    sc = []
+    for i, s in enumerate(subs):
+        extra = s[3] if len(s) > 3 else {}
+        sc.append(_sub(system, tag, i, s[0], s[1], s[2], container, **extra))
+    return {"id": "%s-x-callerobj-%s-%s" % (system[0], tag, container[:2]), "family": "callerobj", "container": container, "subs": sc,
+            "script": script, "share": share, "tags": list(tags), "sel_events": [list(x) for x in sel_events],
+            "members": sorted({m for s in sc for m in s["members"]}), "kind": kind, "urows": list(urows)}
+
+
+def callerobj_configs(system):
+    S, B = "Stream", "Batch"
+    OMIT = {"omit_selectors": True}
+    out = []
+    if system == S:
+        m3 = ["adwin", "ph", "ddm"]
+        a = {"adwin": [0], "ph": [1], "ddm": [0, 1]}
+        b = {"adwin": [1], "ph": [0]}  # both replaced, ddm's entry deleted
+        c = {"adwin": [0], "ph": [2], "ddm": [1]}  # one kept, one replaced, one added
+        same = {"adwin": [0], "ph": [1]}
+        out += [
+            # one selector dict, edited in place between the two constructions
+            _co(S, "seledit-rd", ND, [(m3, a, MA1), (m3, b, SM)], SELEDIT2, {"sel": True}, ["selector_dict_edited_between_constructions"],
+                urows=(0, 1, 2)),
+            _co(S, "seledit-ad", DA, [(m3, b, CE22), (m3, c, OA11)], SELEDIT2, {"sel": True}, ["selector_dict_edited_between_constructions"]),
+            # ... and cleared by the caller once both ensembles exist
+            _co(S, "selclear", ND, [(m3, a, MA1), (m3, c, MA1)], SELEDIT2 + [["selclear"]], {"sel": True},
+                ["selector_dict_edited_between_constructions", "selector_dict_cleared_after_construction"]),
+            # the same dict, unchanged, for both; afterwards one / the other is configured through its attribute at every
+            # point of the history
+            _co(S, "selattr", ND, [(m3, same, MA1), (m3, same, SM)], [["seledit", 0]] + BUILD2, {"sel": True},
+                ["same_selector_dict_for_both"], sel_events=[(0, "adwin", [1]), (1, "ph", [2]), (1, "ddm", [0])]),
+            _co(S, "selattr-own", DA, [(m3, same, OA11), (m3, same, OA11)], BUILD2, {"election": True},
+                ["shared_election_object"], sel_events=[(0, "ph", [0]), (1, "adwin", [2])]),
+            # no column_selectors argument for either; one configured through the attribute before / after the other is built
+            _co(S, "default-before", ND, [(["kdq", "ddm"], {}, MA1, OMIT), (["kdq", "ddm"], {}, MA1, OMIT)],
+                [["new", 0], ["attr", 0, "kdq", [0, 1]], ["attr", 0, "ddm", [2]], ["new", 1]], {},
+                ["no_selector_argument_then_attribute"], kind="kdq", urows=(0, 1, 2)),
+            _co(S, "default-after", DA, [(["ddm", "kdq"], {}, SM, OMIT), (["ddm", "kdq"], {}, MA2, OMIT)],
+                BUILD2 + [["attr", 1, "kdq", [1, 2]]], {}, ["no_selector_argument_then_attribute"], kind="kdq"),
+            # (same width, other column order: a streaming member cannot change its number of columns in mid-history)
+            _co(S, "default-mid", ND, [(["kdq", "ddm"], {}, SM, OMIT), (["kdq", "ddm"], {}, MA1, OMIT)], BUILD2, {},
+                ["no_selector_argument_then_attribute"], sel_events=[(0, "kdq", [2, 1, 0]), (1, "kdq", [1, 0, 2])], kind="kdq"),
+            # one member dict refilled in place with fresh detectors (same keys / other keys and order)
+            _co(S, "members-same", ND, [(m3, a, MA1), (m3, a, MA1)], MEMEDIT2, {"members": True}, ["member_dict_refilled_between_constructions"]),
+            _co(S, "members-other", DA, [(m3, a, SM), (["ddm", "adwin", "ph2"], {"adwin": [1], "ph2": [0]}, CE11)], MEMEDIT2,
+                {"members": True}, ["member_dict_refilled_between_constructions"]),
+            # everything shared: selector dict, member dict, (stateless) election object
+            _co(S, "all", ND, [(m3, a, MA1), (m3, b, MA1)], ALLEDIT2, {"sel": True, "members": True, "election": True},
+                ["selector_dict_edited_between_constructions", "member_dict_refilled_between_constructions", "shared_election_object"]),
+            # one election object for both, then ensemble.election replaced on one of them
+            _co(S, "elattr", ND, [(m3, a, MA1), (m3, c, MA1)], BUILD2 + [["elattr", 0, "Confirmed", {"sensitivity": 2, "wait_time": 2}]],
+                {"election": True}, ["shared_election_object", "election_replaced_afterwards"]),
+        ]
+    else:
+        h2 = ["hdddm", "cdbd"]
+        out += [
+            _co(B, "seledit", ND, [(h2, {"hdddm": [0, 1], "cdbd": [1]}, MA1), (h2, {"hdddm": [2], "cdbd": [0]}, SM)], SELEDIT2,
+                {"sel": True}, ["selector_dict_edited_between_constructions"]),
+            _co(B, "seledit-del", DA, [(h2, {"hdddm": [0], "cdbd": [1]}, CE11), (h2, {"cdbd": [2]}, MA1)], SELEDIT2,
+                {"sel": True}, ["selector_dict_edited_between_constructions"]),
+            _co(B, "default-before", DA, [(["hdddm", "hdddm2"], {}, MA1, OMIT), (["hdddm", "hdddm2"], {}, MA1, OMIT)],
+                [["new", 0], ["attr", 0, "hdddm", [0]], ["attr", 0, "hdddm2", [1, 2]], ["new", 1]], {}, ["no_selector_argument_then_attribute"]),
+            _co(B, "default-mid", ND, [(["hdddm", "hdddm2"], {}, SM, OMIT), (["hdddm", "hdddm2"], {}, MA2, OMIT)], BUILD2, {},
+                ["no_selector_argument_then_attribute"], sel_events=[(0, "hdddm", [1]), (1, "hdddm2", [0, 2])]),
+            _co(B, "all", ND, [(h2, {"hdddm": [0, 2], "cdbd": [1]}, MA1), (h2, {"hdddm": [1], "cdbd": [1]}, MA1)], ALLEDIT2,
+                {"sel": True, "members": True, "election": True},
+                ["selector_dict_edited_between_constructions", "member_dict_refilled_between_constructions", "shared_election_object"]),
+        ]
+    ids = [c["id"] for c in out]
+    if len(set(ids)) != len(ids):
+        raise HarnessError("HARNESS-CRASH: duplicate callerobj configuration ids")
+    return out
+
+
+def _callerobj_tasks(tier):
+    out = []
+    for sysn in ("Stream", "Batch"):
+        name = sysn + "Shared"
+        system = SYSTEMS[name]
+        for cfg in callerobj_configs(sysn):
+            d = CALLEROBJ_DEPTH[tier]
+            depth = d["batch"] if sysn == "Batch" else (d["stream_kdq"] if cfg.get("kind") == "kdq" else d["stream"])
+            firsts = system.alphabet(cfg, system.init(cfg), 0)
+            for f in firsts:
+                out.append({
+                    "system": name, "cfg": cfg, "prefix": [f], "depth": depth - 1,
+                    "label": "%s|%s|%d%s" % (name, cfg["id"], f[0], "".join(str(x) for x in f[1][:2])),
+                    "cost": sum(COST[m] for s in cfg["subs"] for m in s["members"]) * len(firsts) ** (depth - 1) * 0.2,
+                    "validate_every": 53,
+                })
+    return out
+
+
+REQUIRED_CALLEROBJ = (
+    ["family_callerobj_updates", "family_callerobj_member_alarms", "family_callerobj_ensemble_alarms",
+     "callerobj_events", "callerobj_events_with_every_ensemble_used", "callerobj_other_ensemble_checked_untouched",
+     "callerobj_ensembles_disagree", "callerobj_same_key_members_in_different_states",
+     "callerobj_attribute_configured_during_the_history", "callerobj_attribute_configured_after_updates",
+     "callerobj_update_after_attribute_configuration"]
+    + ["callerobj_" + t for t in (
+        "selector_dict_edited_between_constructions", "selector_dict_cleared_after_construction", "same_selector_dict_for_both",
+        "no_selector_argument_then_attribute", "member_dict_refilled_between_constructions", "shared_election_object",
+        "election_replaced_afterwards")]
+)
+
+
 COST = {"adwin": 0.1, "ddm": 0.05, "ph": 0.05, "kdq": 3.0, "lfr": 2.0, "kdqb": 6.0, "hdddm": 3.0, "hdddm2": 2.0, "nndvi": 2.0, "cdbd": 1.5,
         "cusum": 0.05, "ph3": 0.05, "ddmw": 0.05}
 for _k in list(FACTORY):
     COST.setdefault(_k, COST.get(_k.rstrip("2").replace("_b", ""), 1.0))
 # mutant triage: "off" = pre-round-3 tasks, "only" = round-3 families alone, "nolong" = everything but the round-3b family
-# "long", "long" = that family alone
+# "long", "long" = that family alone, "callerobj" = the round-5 family alone
 ROUND3 = os.environ.get("VERIF_ROUND3", "")
 
 
@@ -1179,6 +1519,8 @@ def tasks(tier, seed):
     out = []
     if ROUND3 == "long":
         return _long_tasks(tier)
+    if ROUND3 == "callerobj":
+        return _callerobj_tasks(tier)
     if ROUND3 != "only":
         for cfg in configs(tier, "Stream"):
             out += _stream_tasks(cfg, depth_of(tier, "Stream", cfg))
@@ -1191,6 +1533,7 @@ def tasks(tier, seed):
             out += _batch_tasks(cfg, xdepth(tier, "Batch", cfg))
         if ROUND3 != "nolong":
             out += _long_tasks(tier)
+        out += _callerobj_tasks(tier)
     return out
 
 
@@ -1255,12 +1598,14 @@ def REQUIRED(tier):  # noqa: F811 - the list above stays the pre-round-3 require
     if ROUND3 == "off":
         return list(_REQUIRED_BASE)
     if ROUND3 == "only":
-        return list(REQUIRED_R3) + list(REQUIRED_LONG)
+        return list(REQUIRED_R3) + list(REQUIRED_LONG) + list(REQUIRED_CALLEROBJ)
     if ROUND3 == "long":
         return list(REQUIRED_LONG)
+    if ROUND3 == "callerobj":
+        return list(REQUIRED_CALLEROBJ)
     if ROUND3 == "nolong":
-        return list(_REQUIRED_BASE) + list(REQUIRED_R3)
-    return list(_REQUIRED_BASE) + list(REQUIRED_R3) + list(REQUIRED_LONG)
+        return list(_REQUIRED_BASE) + list(REQUIRED_R3) + list(REQUIRED_CALLEROBJ)
+    return list(_REQUIRED_BASE) + list(REQUIRED_R3) + list(REQUIRED_LONG) + list(REQUIRED_CALLEROBJ)
 
 
 def describe(tier):
@@ -1314,6 +1659,31 @@ def describe(tier):
                 "members": "ph / adwin as above; cusum = CUSUM(target 0, sd 1, burn_in 0, threshold 2); ph3 = PageHinkley(delta .01, "
                 "threshold 2, burn_in 3); ddmw = DDM(n_threshold 4, warning .5, drift 1.5)",
             },
+            "round5_callerobj": {
+                "rule": "systems StreamShared / BatchShared: two ensembles built in init() by the configuration's script from "
+                "caller-owned objects that stay in the explored state; events are [ensemble index, event]; every interleaving "
+                "(either ensemble may move at every node) of update(row/batch k in urows), reset(), (batch) set_reference -- the "
+                "first event of a batch ensemble is its set_reference -- and, where listed, ensemble.column_selectors[key] = "
+                "selector; depth counts the events of both ensembles together",
+                "depth": CALLEROBJ_DEPTH[tier],
+                "script_ops": {
+                    "seledit i": "the caller's ONE selector dict is edited in place (stale keys deleted, the others assigned) to describe ensemble i",
+                    "selclear": "the caller clears that dict after both ensembles exist",
+                    "memedit i": "the caller's ONE member dict is cleared and refilled with fresh detectors for ensemble i",
+                    "new i": "ensemble i is constructed from the caller's objects as they are now (share: which arguments are the "
+                    "caller's shared objects; omit_selectors: no column_selectors argument at all)",
+                    "attr i key cols": "ensemble_i.column_selectors[key] = selector of cols",
+                    "elattr i": "ensemble_i.election = a new election object",
+                },
+                "configurations": [
+                    {"id": c["id"], "share": c["share"], "script": c["script"], "urows": c["urows"], "attribute_events": c["sel_events"],
+                     "ensembles": [{"members": s_["members"], "selectors": s_["selectors"], "election": s_["election"],
+                                    "no_selector_argument": bool(s_.get("omit_selectors"))} for s_ in c["subs"]]}
+                    for sysn in ("Stream", "Batch") for c in callerobj_configs(sysn)
+                ],
+                "transposition": "per-ensemble canonical keys + each ensemble's intended selectors / election + what its real selector "
+                "table does to a probe (so states whose tables differ are never merged; the probe is not an oracle)",
+            },
         },
         "explanation": "states = distinct canonical states (members, election, counters); traces_validated_against_impl = "
         "maximal event sequences on which every member was compared with its solo twin after every event",
@@ -1336,6 +1706,13 @@ def describe(tier):
             "does alone -- those histories end there (member_raises_alone_too)",
             "round 3b: wait_period_counters of a ConfirmedElection must be a list of integers equal to one evaluation of the "
             "election per update from the very first update on (None / anything else is reported as election-counters)",
+            "round 5 (callerobj): both ensembles are constructed in init() (construction of an ensemble after another one has been "
+            "used is the generic Pair: seq schedule of mc/pairs.py); only stateless election objects are shared; the caller never "
+            "hands the same DETECTOR objects to two ensembles (they would legitimately share state) -- the member dict is refilled "
+            "with fresh detectors; attribute configuration in mid-history keeps a streaming member's number of columns (or the "
+            "member refuses the sample exactly as it does alone: member_raises_alone_too); entries of column_selectors are "
+            "assigned, never deleted (what a deleted entry means is not documented); the generic Pair: family is not derived "
+            "from StreamShared / BatchShared (PAIR_EXCLUDE)",
             "round 3: two ensembles share an election object only for the stateless elections (pure functions of the member list); "
             "sharing a ConfirmedElection (per-position counters) and nesting an ensemble inside an ensemble are not documented and "
             "are left out",
